@@ -956,7 +956,7 @@ func cmdMinimise(args []string) int {
 		fmt.Fprintln(os.Stderr, err)
 		return 2
 	}
-	kf := loadKnown("/verif")
+	kf := loadKnown(envStr("VERIF_DIR", "/verif"))
 	r, err := executeSchedule(&rf.Schedule, rf.Schedule.Property, kf, false)
 	if err != nil || len(r.Viols) == 0 {
 		fmt.Println("no violation to minimise")
